@@ -19,12 +19,26 @@
 
    ig_locked_recv = true is the code after the repair (the consumer keeps the read lock from loading the
    reference until its select returns); false is the code as found (RUnlock right after the load). *)
-From Coq Require Import List Arith Bool PeanoNat.
+From Coq Require Import List Arith Bool PeanoNat ZArith.
 Import ListNotations.
 
 Definition igid := (nat * nat)%type.       (* producer index, sequence number of the row *)
 
 Inductive igstrat := IgDrop | IgBlock | IgBlockTO | IgExpand.
+
+(* Which of the producer programs a configuration selects.
+   stream/stream_factory.go setupDataProcessingStrategy: OverflowConfig.Strategy names the strategy object;
+   stream/strategy.go BlockingStrategy.ProcessData: `if bs.stream.blockingTimeout <= 0` takes the select
+   without a timer (IgBlock: no IgTo step), every other value arms time.NewTimer(blockingTimeout) (IgBlockTO).
+   The boundary matters: BlockTimeout = 0 is the documented "no timeout" value and negative durations are
+   accepted by the configuration as well; both must block until there is room. *)
+Inductive igname := IgNDrop | IgNBlock | IgNExpand.
+Definition ig_strat_of (nm : igname) (block_timeout_ns : Z) : igstrat :=
+  match nm with
+  | IgNDrop => IgDrop
+  | IgNExpand => IgExpand
+  | IgNBlock => if (block_timeout_ns <=? 0)%Z then IgBlock else IgBlockTO
+  end.
 
 Record igcfg := {
   ig_strat : igstrat;
